@@ -22,24 +22,28 @@ import os
 from extract import PKG, Missing
 
 FUNCS = [
-    dict(src="client.py", qual="Client._pack_remaining_length", name="packRemainingLength",
+    dict(file="FnRemLen", src="client.py", qual="Client._pack_remaining_length", name="packRemainingLength",
          params=[("packet", "Bytes"), ("remaining_length", "Int")], fuel="(remaining_length.toNat + 1)", ret="Bytes"),
-    dict(src="properties.py", qual="VariableByteIntegers.encode", name="vbiEncode",
+    dict(file="FnVbi", src="properties.py", qual="VariableByteIntegers.encode", name="vbiEncode",
          params=[("x", "Int")], fuel="(x.toNat + 1)", ret="Bytes"),
-    dict(src="properties.py", qual="VariableByteIntegers.decode", name="vbiDecode",
+    dict(file="FnVbi", src="properties.py", qual="VariableByteIntegers.decode", name="vbiDecode",
          params=[("buffer", "Bytes")], fuel="(buffer.length + 1)", ret="(Int × Int)"),
 ]
 # loop-free functions whose state lives in attributes of `self`: `attrs` gives the Lean type of every attribute read or
 # written; the translated function takes the attributes it reads (in this order) before its parameters and returns
 # (result, attributes it writes) - the listed `writes` in that order
 STRAIGHT = [
-    dict(src="client.py", qual="Client._mid_generate", name="midGenerate", params=[],
+    dict(file="FnMid", src="client.py", qual="Client._mid_generate", name="midGenerate", params=[],
          attrs=[("_last_mid", "Int")], writes=["_last_mid"], ret="Int"),
-    dict(src="subscribeoptions.py", qual="SubscribeOptions.pack", name="subOptsPack", params=[],
+    dict(file="FnSubOpts", src="subscribeoptions.py", qual="SubscribeOptions.pack", name="subOptsPack", params=[],
          attrs=[("QoS", "Int"), ("noLocal", "Bool"), ("retainAsPublished", "Bool"), ("retainHandling", "Int")], writes=[], ret="Bytes"),
-    dict(src="subscribeoptions.py", qual="SubscribeOptions.unpack", name="subOptsUnpack", params=[("buffer", "Bytes")],
+    dict(file="FnSubOpts", src="subscribeoptions.py", qual="SubscribeOptions.unpack", name="subOptsUnpack", params=[("buffer", "Bytes")],
          attrs=[("QoS", "Int"), ("noLocal", "Bool"), ("retainAsPublished", "Bool"), ("retainHandling", "Int")],
          writes=["QoS", "noLocal", "retainAsPublished", "retainHandling"], ret="Int"),
+    dict(file="FnValidate", src="client.py", qual="Client._filter_wildcard_len_check", name="filterWildcardLenCheck",
+         params=[("sub", "Bytes")], attrs=[], writes=[], ret="Int"),
+    dict(file="FnValidate", src="client.py", qual="Client._raise_for_invalid_topic", name="raiseForInvalidTopic",
+         params=[("topic", "Bytes")], attrs=[], writes=[], ret="Unit", falls_off=True),
 ]
 EXC = {"ValueError": ".valueError", "TypeError": ".typeError", "AssertionError": ".assertionError", "IndexError": ".indexError"}
 RESERVED = {"bytes": "bytes_", "end": "end_", "from": "from_", "at": "at_", "open": "open_"}
@@ -110,6 +114,42 @@ class Tr:
             if op is None:
                 raise Missing(f"operator {type(e.op).__name__}")
             return f"({a} {op} {b})", "Int"
+        if isinstance(e, ast.Compare) and len(e.ops) == 1 and isinstance(e.ops[0], (ast.In, ast.NotIn)) \
+                and isinstance(e.left, ast.Constant) and isinstance(e.left.value, bytes) and len(e.left.value) >= 1:
+            hay, th = self.expr(e.comparators[0])
+            if th != "Bytes":
+                raise Missing("bytes membership in a non-bytes value")
+            needle = e.left.value
+            mem = f"(({hay}).contains {needle[0]})" if len(needle) == 1 else f"(hasSub [{', '.join(str(b) for b in needle)}] {hay})"
+            return (mem if isinstance(e.ops[0], ast.In) else f"(!{mem})"), "Bool"
+        if isinstance(e, ast.Call) and isinstance(e.func, ast.Name) and e.func.id == "any" and len(e.args) == 1 \
+                and isinstance(e.args[0], ast.GeneratorExp) and len(e.args[0].generators) == 1:
+            g = e.args[0].generators[0]
+            it = g.iter
+            if not (isinstance(g.target, ast.Name) and isinstance(it, ast.Call) and isinstance(it.func, ast.Attribute) and it.func.attr == "split"
+                    and len(it.args) == 1 and isinstance(it.args[0], ast.Constant) and isinstance(it.args[0].value, bytes) and len(it.args[0].value) == 1):
+                raise Missing("any() over something other than x.split(<one byte>)")
+            src, ts = self.expr(it.func.value)
+            if ts != "Bytes":
+                raise Missing("split of a non-bytes value")
+            v = g.target.id
+            saved = self.types.get(v)
+            self.types[v] = "Bytes"
+            conds = [self.test(c) for c in g.ifs]
+            elt = self.test(e.args[0].elt)
+            if saved is None:
+                del self.types[v]
+            else:
+                self.types[v] = saved
+            body = " && ".join(conds + [elt])
+            return f"((splitOn {it.args[0].value[0]} {src}).any (fun {lname(v)} => {body}))", "Bool"
+        if isinstance(e, ast.Attribute) and isinstance(e.value, ast.Name) and e.value.id == "MQTTErrorCode":
+            import enum as _enum
+            import importlib.util as _u
+            spec = _u.spec_from_file_location("_paho_enums", os.path.join(PKG, "enums.py"))
+            mod = _u.module_from_spec(spec)
+            spec.loader.exec_module(mod)
+            return f"({int(getattr(mod.MQTTErrorCode, e.attr))} : Int)", "Int"
         if isinstance(e, ast.Compare) and len(e.ops) == 1 and isinstance(e.ops[0], (ast.In, ast.NotIn)) \
                 and isinstance(e.comparators[0], ast.Tuple) and all(isinstance(x, ast.Constant) and isinstance(x.value, int) for x in e.comparators[0].elts):
             a, ta = self.expr(e.left)
@@ -337,7 +377,9 @@ class Tr:
         for n, _ in cfg["params"]:
             L.append(f"  let mut {lname(n)} := {lname(n)}")
         L += body
-        if not (fn.body and isinstance(fn.body[-1], ast.Return)) and not any(isinstance(n, ast.Return) for n in ast.walk(fn.body[-1])):
+        if cfg.get("falls_off"):
+            L.append("  return ()")
+        elif not (fn.body and isinstance(fn.body[-1], ast.Return)) and not any(isinstance(n, ast.Return) for n in ast.walk(fn.body[-1])):
             raise Missing("function may fall off its end")
         return "\n".join(L)
 
@@ -354,30 +396,24 @@ def find_func(tree, qual):
 
 
 def run(out):
-    """called by extract.run(): adds the generated file `Fn` (raw text) and reports missing translations"""
-    texts = []
-    for cfg in FUNCS:
+    """called by extract.run(): returns {generated file name: Lean text}; reports untranslatable functions as missing anchors
+    of the file they belong to (one file per consumer, so that a function that can no longer be translated breaks only
+    the proofs that depend on it)"""
+    texts = {}
+    for cfg, straight in [(c, False) for c in FUNCS] + [(c, True) for c in STRAIGHT]:
+        f = cfg["file"]
+        texts.setdefault(f, [])
         try:
             tree = ast.parse(open(os.path.join(PKG, cfg["src"]), encoding="utf-8").read())
             fn = find_func(tree, cfg["qual"])
-            texts.append(Tr(cfg, fn).translate())
+            tr = Tr(cfg, fn)
+            texts[f].append(tr.translate_straight() if straight else tr.translate())
             out.report["anchors"]["fn:" + cfg["name"]] = {"value": "translated", "where": f"{cfg['src']} {cfg['qual']}"}
         except Missing as e:
-            texts.append(f"-- MISSING translation {cfg['name']}: {e}")
-            out.report["missing"].append({"name": "fn:" + cfg["name"], "why": f"not translatable: {e}", "file": "Fn"})
+            texts[f].append(f"-- MISSING translation {cfg['name']}: {e}")
+            out.report["missing"].append({"name": "fn:" + cfg["name"], "why": f"not translatable: {e}", "file": f})
         except (OSError, SyntaxError) as e:
-            out.report["missing"].append({"name": "fn:" + cfg["name"], "why": f"cannot parse: {e}", "file": "Fn"})
-    for cfg in STRAIGHT:
-        try:
-            tree = ast.parse(open(os.path.join(PKG, cfg["src"]), encoding="utf-8").read())
-            fn = find_func(tree, cfg["qual"])
-            texts.append(Tr(cfg, fn).translate_straight())
-            out.report["anchors"]["fn:" + cfg["name"]] = {"value": "translated", "where": f"{cfg['src']} {cfg['qual']}"}
-        except Missing as e:
-            texts.append(f"-- MISSING translation {cfg['name']}: {e}")
-            out.report["missing"].append({"name": "fn:" + cfg["name"], "why": f"not translatable: {e}", "file": "Fn"})
-        except (OSError, SyntaxError) as e:
-            out.report["missing"].append({"name": "fn:" + cfg["name"], "why": f"cannot parse: {e}", "file": "Fn"})
-    return ("-- GENERATED by /verif/py/py2lean.py from the working tree of /repo. Do not edit.\n"
-            "import Paho.Model.Py\n"
-            "namespace Paho.Gen.Fn\nopen Paho\n\n" + "\n\n".join(texts) + "\n\nend Paho.Gen.Fn\n")
+            out.report["missing"].append({"name": "fn:" + cfg["name"], "why": f"cannot parse: {e}", "file": f})
+    return {f: ("-- GENERATED by /verif/py/py2lean.py from the working tree of /repo. Do not edit.\n"
+                "import Paho.Model.Py\n"
+                "namespace Paho.Gen.Fn\nopen Paho\n\n" + "\n\n".join(t) + "\n\nend Paho.Gen.Fn\n") for f, t in texts.items()}
